@@ -62,6 +62,8 @@ Fixpoint read_dids (dids : list (Z * bytes)) (req : bytes) (fuel : nat) : option
     end
   end.
 
+Definition quiet (sub : Z) (rep : bytes) : bytes := if 128 <=? sub then [] else rep.
+
 Definition ecu_step (e : ecu) (req : bytes) : ecu * bytes :=
   match req with
   | [] => (e, [])
@@ -118,34 +120,40 @@ Definition ecu_step (e : ecu) (req : bytes) : ecu * bytes :=
       | Some d => (set_dl (set_mem e (mem_write (e_mem e) (dl_addr d) (dl_data d))) None, [119])
       | None => (e, nrc sid 36)
       end
-    else if sid =? 16 then match body with s :: _ => (e, [80; Z.land s 127; 0; 50; 1; 244]) | [] => (e, nrc sid 19) end
-    else if sid =? 39 then
+    (* services with a subfunction: bit 7 of it (suppressPosRspMsgIndicationBit) silences the positive response only *)
+    else if sid =? 16 then
       match body with
-      | l :: _ => if Z.land l 127 mod 2 =? 1 then (e, [103; Z.land l 127; 1; 2; 3; 4]) else (e, [103; Z.land l 127])
+      | s :: _ => if (1 <=? Z.land s 127) && (Z.land s 127 <=? 4) then (e, quiet s [80; Z.land s 127; 0; 50; 1; 244]) else (e, nrc sid 18)
       | [] => (e, nrc sid 19)
       end
-    else if sid =? 62 then (e, [126; 0])
-    else if sid =? 17 then match body with t :: _ => (e, [81; Z.land t 127]) | [] => (e, nrc sid 19) end
+    else if sid =? 39 then
+      match body with
+      | l :: _ => if Z.land l 127 mod 2 =? 1 then (e, quiet l [103; Z.land l 127; 1; 2; 3; 4]) else (e, quiet l [103; Z.land l 127])
+      | [] => (e, nrc sid 19)
+      end
+    else if sid =? 62 then match body with s :: _ => (e, quiet s [126; 0]) | [] => (e, nrc sid 19) end
+    else if sid =? 17 then match body with t :: _ => (e, quiet t [81; Z.land t 127]) | [] => (e, nrc sid 19) end
     else (e, nrc sid 17)
   end.
 
 (* ---- the client model talking to the ECU ---------------------------------------------------------------------------- *)
 Definition sent_frames (tr : list ev) : list bytes := flat_map (fun x => match x with EvS p => [p] | _ => [] end) tr.
 
-(* run one call reactively: each frame the client sends is answered by the ECU 1 us later *)
-Fixpoint react (fuel : nat) (cfg : config) (st : cstate) (e : ecu) (c : call) (now : Z) (answered : list (Z * item))
+(* run one call reactively: each frame the client sends is answered by the ECU (1 + lat) us later; nf = frames the ECU
+   has processed so far (a silent ECU still processes the frame) *)
+Fixpoint react (fuel : nat) (cfg : config) (st : cstate) (e : ecu) (c : call) (now lat : Z) (nf : nat) (answered : list (Z * item))
   : outcome (option iresp) * cstate * Z * list ev * ecu :=
   let '(out, st', t, _, tr) := run_call cfg st c now answered in
   match fuel with
   | O => (out, st', t, tr, e)
   | S k =>
     let frames := sent_frames tr in
-    if Nat.ltb (List.length answered) (List.length frames) then
-      let f := nth (List.length answered) frames [] in
+    if Nat.ltb nf (List.length frames) then
+      let f := nth nf frames [] in
       let '(e', rep) := ecu_step e f in
       match rep with
-      | [] => (out, st', t, tr, e')
-      | _ => react k cfg st e' c now (answered ++ [(now + 1 + Z.of_nat (List.length answered), Frame rep)])
+      | [] => react k cfg st e' c now lat (S nf) answered
+      | _ => react k cfg st e' c now lat (S nf) (answered ++ [(now + 1 + lat + Z.of_nat nf, Frame rep)])
       end
     else (out, st', t, tr, e)
   end.
@@ -154,17 +162,33 @@ Definition enc_ecu (e : ecu) : list Z :=
   enc_list (fun '(d, v) => d :: enc_bytes v) (e_dids e) ++ enc_list (fun '(a, b) => [a; b]) (e_mem e)
   ++ [match e_dl e with Some _ => 1 | None => 0 end].
 
-(* a sequence of calls against one ECU: per call the outcome and the frames sent; then the ECU state *)
-Fixpoint run_ecu_calls (cfgv : list Z) (st : cstate) (e : ecu) (now : Z) (calls : list call) : list Z :=
-  match calls with
+(* a history against one ECU: client calls, suppress-positive-response blocks, ECU latency changes, idle time.  Each call
+   starts from an empty reception queue (the client flushes before it sends): answers the client never read - to a request
+   sent without waiting, or arriving after a timeout - are gone. *)
+Inductive eop := ECall (c : call) | ESprEnter (w : bool) | ESprExit | ELatency (lat : Z) | EIdle (dt : Z).
+
+(* per call the outcome and the frames sent; then the ECU state *)
+Fixpoint run_ecu_calls (cfgv : list Z) (st : cstate) (e : ecu) (now lat : Z) (ops : list eop) : list Z :=
+  match ops with
   | [] => enc_ecu e
-  | c :: rest =>
-    let '(out, st', t, tr, e') := react 3 (cfg_of cfgv) st e c now [] in
-    enc_outcome enc_sdata_resp out ++ enc_list enc_bytes (sent_frames tr) ++ run_ecu_calls cfgv st' e' t rest
+  | ECall c :: rest =>
+    let '(out, st', t, tr, e') := react 4 (cfg_of cfgv) st e c now lat 0 [] in
+    enc_outcome enc_sdata_resp out ++ enc_list enc_bytes (sent_frames tr) ++ run_ecu_calls cfgv st' e' t lat rest
+  | ESprEnter w :: rest => run_ecu_calls cfgv (spr_enter (spr_call st w)) e now lat rest
+  | ESprExit :: rest => run_ecu_calls cfgv (spr_exit st) e now lat rest
+  | ELatency l :: rest => run_ecu_calls cfgv st e now l rest
+  | EIdle dt :: rest => run_ecu_calls cfgv st e (now + dt) lat rest
   end.
 
 (* flat case: ints = [L] ++ cfg ++ [blk; ncalls] ++ (callid nargs args.. ncb)* ; blobs in order *)
-Fixpoint decode_calls (n : nat) (a : list Z) (b : list bytes) : list call :=
+Definition decode_eop (id : Z) (args : list Z) (b : list bytes) : eop :=
+  if id =? 100 then ESprEnter (hd 0 args =? 1)
+  else if id =? 101 then ESprExit
+  else if id =? 102 then ELatency (hd 0 args)
+  else if id =? 103 then EIdle (hd 0 args)
+  else ECall (decode_call id args b).
+
+Fixpoint decode_calls (n : nat) (a : list Z) (b : list bytes) : list eop :=
   match n with
   | O => []
   | S k =>
@@ -172,7 +196,7 @@ Fixpoint decode_calls (n : nat) (a : list Z) (b : list bytes) : list call :=
     | id :: nargs :: a' =>
       let args := firstn (Z.to_nat nargs) a' in
       match skipn (Z.to_nat nargs) a' with
-      | ncb :: a2 => decode_call id args (firstn (Z.to_nat ncb) b) :: decode_calls k a2 (skipn (Z.to_nat ncb) b)
+      | ncb :: a2 => decode_eop id args (firstn (Z.to_nat ncb) b) :: decode_calls k a2 (skipn (Z.to_nat ncb) b)
       | [] => []
       end
     | _ => []
@@ -195,7 +219,7 @@ Definition entry_ecu (e : Z) (a0 : list Z) (b : list bytes) : list Z :=
     let a := tl a0 in
     let cfgv := firstn L a in
     match skipn L a with
-    | blk :: n :: rest => run_ecu_calls cfgv st_init (ecu_init blk) 0 (decode_calls (Z.to_nat n) rest b)
+    | blk :: n :: rest => run_ecu_calls cfgv st_init (ecu_init blk) 0 0 (decode_calls (Z.to_nat n) rest b)
     | _ => [-998]
     end
   else [-999].
